@@ -114,6 +114,8 @@ def rule_panic(ctx, R):
     n = 0
     for name in sorted(reach):
         body = fb.bodies[name]
+        if body.path in fb.helpers:
+            continue  # a helper's sites are audited in the callers it is inlined into
         R.analyse(name)
         ss = sites(body, fb)
         if name in NUMERIC:
@@ -136,6 +138,8 @@ def rule_exit(ctx, R):
     fb, cg, reach = reach_set(ctx)
     n = 0
     for name, body in sorted(fb.bodies.items()):
+        if body.path in fb.helpers:
+            continue  # accounted for in the callers it is inlined into
         for s in sites(body, fb):
             if s["kind"] != "terminate":
                 continue
